@@ -732,7 +732,8 @@ def run_sched_stream(ctx, cov, viols, timing):
     cov.extra["schedules"] = dict(tot, depth=depths)
     for key, p in sorted(probs.items()):
         small = shrink_schedule(p["events"], key.split(":")[1], key, exe)
-        viols.append(violation(key, p["what"] + f" [{p['count']} schedules]", p["found_input"], stream="sched",
+        what = next((w for k2, w, _ in classify(key.split(":")[1], small["events"], small["impl"], small["model"]) if k2 == key), p["what"])
+        viols.append(violation(key, what + f" [{p['count']} schedules]", p["found_input"], stream="sched",
                                kind=key.split(":")[1], events=[list(e) for e in small["events"]], impl=small["impl"],
                                model=small["model"], expected=small["expected"],
                                advertisements={e[1]: _adv_repr(e[1]) for e in small["events"] if e[0] in ("A", "Ab")},
